@@ -14,12 +14,22 @@ displayed in the link text), commit links the hash they wrap.
 
 Note: `format_raw_line` (raw-styled commit lines, blame hashes) only links when stdout is a
 terminal; those sites are exercised through a pty (`pty_cases`).
+
+Remote-derived commit links (`remote_cases`): delta is run *inside* scratch git repositories (`.git/config` written by
+hand under .build/c19-remote/, no `--no-gitconfig`) whose `origin` is built from parts (form x user x host x port x path):
+the four forges in https / scp-like / ssh:// forms, look-alike hosts, nested GitLab groups, ports, a second remote;
+hyperlinks and the commit-link format from the command line or from the repository's `[delta]` section. Oracle: a
+commit link is the configured format applied to the hash it wraps, else it is on the host the origin names, under the
+origin's path, with the forge's commit path, and ends with exactly the hash; the documented forms of the four forges
+must be linked. Correspondence `remote.commit_url`: the Lean model of `GitRemoteRepo::from_str` / `format_commit_url`
+(`DeltaModel/Remote.lean` over `Generated/Remote.lean`, run with `lean --run Driver/Remote.lean`) against the binary on
+those origins and on 1-2 character mutations of them.
 """
 import os
 import re
 import socket
 
-from ..core import hx, unhx, parallel_map, sha, BUILD
+from ..core import hx, unhx, parallel_map, sha, BUILD, LEAN, LineProc, lake_build
 
 DRIVERS = ["drv_ansi"]
 _SEEN = {}
@@ -34,7 +44,7 @@ def report(rep, signature, what, replay):
         rep.violation(signature, what, replay)
 
 
-GENERATED = ["VteTable", "AnsiSgr", "LinkSites", "LinkTargets", "RawLine"]
+GENERATED = ["VteTable", "AnsiSgr", "LinkSites", "LinkTargets", "RawLine", "Remote"]
 ESC = "\x1b"
 
 # ------------------------------------------------------------------ independent OSC 8 scanner
@@ -665,21 +675,22 @@ def binary_cases(ctx):
     return cases
 
 
-def pty_cases(ctx, rep):
-    """Raw lines (`format_raw_line`) are linked only when stdout is a terminal: run through a pty."""
+def pty_cases(ctx, rep, remote=None):
+    """Raw lines (`format_raw_line`) are linked only when stdout is a terminal: run through a pty.
+    `remote` = dict(args, data, cwd): one run inside a repository (git config on), returns (rc, output)."""
     import pty
     import subprocess
     rng = ctx.rng
     root = os.path.join(BUILD, "c19-root")
     os.makedirs(root, exist_ok=True)
 
-    def run(args, data):
+    def run(args, data, cwd=root, nogit=True):
         m, s = pty.openpty()
         e = dict(os.environ, HOME=os.path.join(BUILD, "home"), GIT_CONFIG_NOSYSTEM="1", TERM="xterm-256color")
         for k in ("DELTA_PAGER", "PAGER", "GIT_PREFIX", "DELTA_FEATURES", "LESS"):
             e.pop(k, None)
-        p = subprocess.Popen([ctx.delta, "--no-gitconfig", "--paging", "never", "--width", "100", "--dark"] + args, stdin=subprocess.PIPE,
-                             stdout=s, stderr=subprocess.PIPE, env=e, cwd=root)
+        p = subprocess.Popen([ctx.delta] + (["--no-gitconfig"] if nogit else []) + ["--paging", "never", "--width", "100", "--dark"] + args,
+                             stdin=subprocess.PIPE, stdout=s, stderr=subprocess.PIPE, env=e, cwd=cwd)
         os.close(s)
         p.stdin.write(data)
         p.stdin.close()
@@ -696,6 +707,8 @@ def pty_cases(ctx, rep):
         p.wait(timeout=20)
         return p.returncode, out.replace(b"\r\n", b"\n")
 
+    if remote is not None:
+        return run(remote["args"], remote["data"], cwd=remote["cwd"], nogit=False)
     for _ in range(ctx.n(8, 120)):
         h = ["".join(rng.choice("0123456789abcdef") for _ in range(n)) for n in (40, 8, 7)]
         lines = ["commit " + h[0] + " (HEAD -> main)", "Merge: " + h[1] + " " + h[2], "Author: A", "", "    see " + h[1] + " and 1234567", ""]
@@ -722,11 +735,350 @@ def pty_cases(ctx, rep):
                     break
 
 
+# ------------------------------------------------------------------ remote-derived commit links
+
+# What the four forges serve (from their documentation, not from delta): host -> path between repository and hash.
+FORGES = {"github.com": "/commit/", "gitlab.com": "/-/commit/", "git.sr.ht": "/commit/", "codeberg.org": "/commit/"}
+REMOTE_MODES = [["--commit-style", "yellow"], ["--commit-style", "raw", "--commit-decoration-style", "bold yellow box ul"],
+                ["--commit-style", "blue", "--line-numbers"], ["--commit-style", "yellow", "--side-by-side", "--width", "100"],
+                ["--commit-style", "bold", "--commit-decoration-style", "ul", "--navigate"]]
+HEXD = "0123456789abcdef"
+
+
+def forge_path(rng, forge):
+    """A repository path in the style of `forge` (no `.git`)."""
+    owner = rng.choice(["dandavison", "GNOME", "a-b", "x_y", "u", "o.rg", "22", "Mesa3D"])
+    repo = rng.choice(["delta", "gtk", "r", "my.repo", "repo-2", "docs_site", "git", "x.github.io"])
+    if forge == "git.sr.ht":
+        return "~" + owner + "/" + repo
+    if forge == "gitlab.com":
+        groups = [rng.choice(["grp", "sub", "community", "a.b", "team-1"]) for _ in range(rng.choice([0, 0, 1, 2, 3]))]
+        return "/".join([owner] + groups + [repo])
+    return owner + "/" + repo
+
+
+def lookalike(rng, forge, kind):
+    """(host, path prefix, class) of a host that is not `forge` but looks like it."""
+    first = forge.split(".")[0] if forge != "git.sr.ht" else "git.sr"
+    if kind == "subdomain":
+        return first + "." + rng.choice(["example.org", "gnome.org", "freedesktop.org", "kitware.com", "company.internal"]), "", kind
+    if kind == "suffix":
+        return forge + rng.choice([".evil.org", ".cn", ".example.com", "x"]), "", kind
+    if kind == "prefix":
+        return rng.choice(["not", "my", "x-", "git"]) + forge, "", kind
+    if kind == "dot":
+        return forge.replace(".", rng.choice(["x", "-", "_"])), "", kind
+    if kind == "www":
+        return rng.choice(["www.", "ssh.", "api."]) + forge, "", kind
+    if kind == "forge-in-path":
+        return "evil.org", forge + "/", kind
+    if kind == "at-sign-in-path":
+        return "evil.org", "x@" + forge + "/", kind
+    raise ValueError(kind)
+
+
+def origin_url(form, user, host, port, path, dotgit):
+    p = path + (".git" if dotgit else "")
+    hp = host + (":" + port if port else "")
+    if form in ("https", "http", "ssh", "git"):
+        return form + "://" + (user + "@" if user else "") + hp + "/" + p
+    if form == "scp":
+        return (user or "git") + "@" + host + ":" + p
+    if form == "scp-bare":
+        return host + ":" + p
+    raise ValueError(form)
+
+
+def remote_input(rng):
+    """A `git log -p`-like stream whose commit line carries 1-3 hashes (at least one with a hex letter)."""
+    def hexs(n):
+        while True:
+            h = "".join(rng.choice(HEXD) for _ in range(n))
+            if re.search("[a-f]", h):
+                return h
+    hashes = [hexs(40)]
+    line = "commit " + hashes[0]
+    if rng.random() < 0.5:
+        line += rng.choice([" (HEAD -> main)", " (HEAD -> main, origin/main, tag: v1.2)", " (tag: x)"])
+    for _ in range(rng.choice([0, 0, 1, 2])):
+        h = hexs(rng.choice([7, 8, 12, 40]))
+        hashes.append(h)
+        line += rng.choice([" ", " see ", " cherry picked from "]) + h
+    if rng.random() < 0.3:
+        line += " 1234567"      # digits only: not a hash for delta, never linked
+    lines = [line, "Author: A U Thor <author@example.org>", "Date:   Thu May 14 11:13:17 2020 -0400", "", "    message", ""]
+    if rng.random() < 0.5:
+        lines += ["diff --git a/a.rs b/a.rs", "index 1111111..2222222 100644", "--- a/a.rs", "+++ b/a.rs", "@@ -1,2 +1,2 @@", " ctx", "-old", "+new"]
+    return lines, hashes
+
+
+def remote_cases(ctx):
+    rng = ctx.rng
+    cases = []
+
+    def add(form, host, path, cls, forge, port="", user="", dotgit=None, cfmt=None, **kw):
+        dotgit = (rng.random() < 0.5) if dotgit is None else dotgit
+        if form == "scp" and not user:
+            user = "git"
+        lines, hashes = remote_input(rng)
+        c = dict(origin=origin_url(form, user, host, port, path, dotgit), form=form, user=user, host=host, port=port, path=path,
+                 dotgit=dotgit, cls=cls, forge=forge, cfmt=cfmt, cfmt_source=rng.choice(["cli", "gitconfig"]) if cfmt else None,
+                 links_source="gitconfig" if rng.random() < 0.3 else "cli", mode=rng.choice(REMOTE_MODES),
+                 subdir=rng.random() < 0.3, upstream=None, lines=lines, hashes=hashes, pty=False)
+        c.update(kw)
+        cases.append(c)
+        return c
+
+    forges = sorted(FORGES)
+    # (1) the documented forms of the four forges: https / git@host: / host:, with and without .git
+    for f in forges:
+        for form in ("https", "scp", "scp-bare"):
+            for dg in (False, True):
+                if f == "git.sr.ht" and dg:
+                    continue        # sourcehut has no .git suffix; whether it is stripped is not the property's matter
+                add(form, f, forge_path(rng, f), "forge", f, dotgit=dg)
+    # (2) look-alike hosts, every kind for every forge; the gitlab.<x> family in both forms
+    for f in forges:
+        for kind in ("subdomain", "suffix", "prefix", "dot", "www", "forge-in-path"):
+            host, pre, cls = lookalike(rng, f, kind)
+            add(rng.choice(["https", "scp", "scp-bare"]), host, pre + forge_path(rng, f), "lookalike:" + cls, f)
+    for host in ("gitlab.example.org", "gitlab.gnome.org", "gitlab.com.cn", "gitlab.freedesktop.org"):
+        for form in ("https", "scp"):
+            add(form, host, forge_path(rng, "gitlab.com"), "lookalike:subdomain", "gitlab.com")
+    for f in ("github.com", "gitlab.com"):
+        host, pre, cls = lookalike(rng, f, "at-sign-in-path")
+        add("https", host, pre + forge_path(rng, f), "lookalike:" + cls, f)
+    # (3) other URL forms of the forges: ssh://, with a port, other schemes, other users
+    for f in forges:
+        add("ssh", f, forge_path(rng, f), "forge", f, user="git")
+        add("https", f, forge_path(rng, f), "forge", f, port=rng.choice(["443", "8443"]))
+        add("ssh", f, forge_path(rng, f), "forge", f, user="git", port=rng.choice(["22", "2222"]))
+    add("http", "github.com", forge_path(rng, "github.com"), "forge", "github.com")
+    add("git", "codeberg.org", forge_path(rng, "codeberg.org"), "forge", "codeberg.org")
+    add("https", "github.com", forge_path(rng, "github.com"), "forge", "github.com", user="user")
+    add("scp", "github.com", forge_path(rng, "github.com"), "forge", "github.com", user="org-123")
+    # (4) unknown hosts
+    add("https", "git.example.org", "team/project", "unknown", None)
+    add("scp", "bitbucket.org", "team/project", "unknown", None)
+    # (5) a configured format always wins: forge, look-alike and unknown origin
+    for host, path, cls, f in (("github.com", "u/r", "forge", "github.com"), ("gitlab.gnome.org", "GNOME/gtk", "lookalike:subdomain", "gitlab.com"),
+                               ("git.example.org", "a/b", "unknown", None), ("gitlab.com", "a/b/c", "forge", "gitlab.com")):
+        add(rng.choice(["https", "scp"]), host, path, cls, f, cfmt=rng.choice(["https://example.com/c/{commit}", "x:{commit}:y", "https://" + host + "/" + path + "/-/commit/{commit}"]))
+    # (6) a second remote on another forge does not matter
+    for f in ("gitlab.com", "github.com", "codeberg.org"):
+        other = rng.choice([x for x in forges if x != f])
+        add(rng.choice(["https", "scp"]), f, forge_path(rng, f), "forge", f,
+            upstream=dict(url="https://" + other + "/" + forge_path(rng, other) + ".git", first=rng.random() < 0.5))
+    add("https", "gitlab.example.org", "a/b", "lookalike:subdomain", "gitlab.com", upstream=dict(url="git@gitlab.com:a/b.git", first=True))
+    # (7) through a terminal: raw commit lines are linked too
+    for f, host in (("github.com", "github.com"), ("gitlab.com", "gitlab.gnome.org"), ("gitlab.com", "gitlab.com"), ("codeberg.org", "codeberg.org.evil.org")):
+        add(rng.choice(["https", "scp"]), host, forge_path(rng, f), "forge" if host == f else "lookalike:subdomain", f, pty=True, mode=[], links_source="cli")
+    # (8) random
+    for _ in range(ctx.n(30, 900)):
+        f = rng.choice(forges)
+        k = rng.random()
+        if k < 0.45:
+            add(rng.choice(["https", "scp", "scp-bare"]), f, forge_path(rng, f), "forge", f, dotgit=False if f == "git.sr.ht" else None)
+        elif k < 0.85:
+            host, pre, cls = lookalike(rng, f, rng.choice(["subdomain", "suffix", "prefix", "dot", "www", "forge-in-path"]))
+            add(rng.choice(["https", "scp", "scp-bare", "ssh"]), host, pre + forge_path(rng, f), "lookalike:" + cls, f,
+                cfmt=rng.choice([None, None, None, "https://example.com/c/{commit}"]))
+        else:
+            add(rng.choice(["ssh", "https"]), f, forge_path(rng, f), "forge", f, user=rng.choice(["", "git", "me"]), port=rng.choice(["", "", "22", "8443"]))
+    return cases
+
+
+def scratch_repo(case, with_links):
+    """Write the scratch repository of `case` (idempotent); returns the directory delta runs in."""
+    cfg = "[core]\n\trepositoryformatversion = 0\n\tfilemode = true\n\tbare = false\n"
+    up = case.get("upstream")
+    upt = ('[remote "upstream"]\n\turl = %s\n\tfetch = +refs/heads/*:refs/remotes/upstream/*\n' % up["url"]) if up else ""
+    if up and up["first"]:
+        cfg += upt
+    cfg += '[remote "origin"]\n\turl = %s\n\tfetch = +refs/heads/*:refs/remotes/origin/*\n' % case["origin"]
+    if up and not up["first"]:
+        cfg += upt
+    d = []
+    if with_links and case["links_source"] == "gitconfig":
+        d.append("\thyperlinks = true\n")
+    if case.get("cfmt") and case["cfmt_source"] == "gitconfig":
+        d.append("\thyperlinks-commit-link-format = %s\n" % case["cfmt"])
+    if d:
+        cfg += "[delta]\n" + "".join(d)
+    repo = os.path.join(BUILD, "c19-remote", sha(cfg)[:16])
+    git = os.path.join(repo, ".git")
+    if not os.path.exists(os.path.join(git, "config")):
+        os.makedirs(os.path.join(git, "objects"), exist_ok=True)
+        os.makedirs(os.path.join(git, "refs", "heads"), exist_ok=True)
+        os.makedirs(os.path.join(repo, "sub", "dir"), exist_ok=True)
+        with open(os.path.join(git, "HEAD"), "w") as f:
+            f.write("ref: refs/heads/main\n")
+        tmp = os.path.join(git, "config.%d.%d" % (os.getpid(), id(case)))
+        with open(tmp, "w") as f:
+            f.write(cfg)
+        os.replace(tmp, os.path.join(git, "config"))
+    return os.path.join(repo, "sub", "dir") if case.get("subdir") else repo
+
+
+def remote_args(case, with_links):
+    a = list(case["mode"])
+    if with_links and case["links_source"] == "cli":
+        a.append("--hyperlinks")
+    if case.get("cfmt") and case["cfmt_source"] == "cli":
+        a += ["--hyperlinks-commit-link-format", case["cfmt"]]
+    return a
+
+
+def remote_case(ctx, rep, case):
+    data = ("\n".join(case["lines"]) + "\n").encode()
+    env = {"XDG_CONFIG_HOME": os.path.join(BUILD, "home", ".config")}
+    runs = []
+    for with_links in (False, True):
+        cwd = scratch_repo(case, with_links)
+        if case.get("pty"):
+            rc, out = pty_cases(ctx, rep, remote=dict(args=remote_args(case, with_links), data=data, cwd=cwd))
+            err = b""
+        else:
+            rc, out, err = ctx.run_delta(remote_args(case, with_links), data, env=env, cwd=cwd)
+        runs.append((rc, out, err))
+    (rc1, o1, e1), (rc2, o2, e2) = runs
+    nlinks = o2.count(b"\x1b]8;;")
+    rep.case(key=("remote", case["origin"], case.get("cfmt"), tuple(case["mode"]), case["links_source"], case.get("pty")), nontrivial=nlinks > 0,
+             sample=dict(op="binary inside a repository, commit links", origin=case["origin"], mode=case["mode"], commit_fmt=case.get("cfmt"),
+                         links=nlinks // 2, first_line=case["lines"][0]))
+    rep.count("remote:" + case["cls"] + ":" + case["form"] + (":port" if case["port"] else "") + (":configured" if case.get("cfmt") else ""))
+    rep.count("remote:links=%d" % min(nlinks // 2, 4))
+    rcase = dict(kind="remote", **case)
+    if rc1 != 0 or rc2 != 0:
+        report(rep, "binary:exit-status", f"delta exit status {rc1}/{rc2} inside a repository", dict(stderr=(e1 + e2)[:600].decode("utf-8", "replace"), **rcase))
+        return
+    l1, l2 = o1.split(b"\n"), o2.split(b"\n")
+    if len(l1) != len(l2):
+        report(rep, "not-transparent:line-count", "number of output lines differs with hyperlinks", rcase)
+        return
+    cls = case["cls"].split(":")[-1]
+    linked = []
+    for i, (a, b) in enumerate(zip(l1, l2)):
+        txt, links, ok = scan_links(b)
+        if txt != a:
+            report(rep, "not-transparent:" + ("raw-line" if case.get("pty") else site_of(a)), "output with hyperlinks, OSC 8 strings removed, differs from the output without",
+                   dict(row=i, without=repr(a), with_=repr(b), **rcase))
+            return
+        if not ok:
+            report(rep, "unbalanced:" + site_of(a), "a hyperlink is not opened and closed on the same line", dict(row=i, with_=repr(b), **rcase))
+            return
+        for url, text in links:
+            u, t = url.decode("utf-8", "replace"), visible(text)
+            if u.startswith("file"):
+                continue    # file links: the other families
+            linked.append(t)
+            what = dict(row=i, url=u, text=t, **rcase)
+            if not re.fullmatch(r"[0-9a-f]{7,40}", t) or not re.search("[a-f]", t):
+                report(rep, "wrong-target:commit:not-a-hash", "a commit link wraps text that is not a hash", what)
+                return
+            if case.get("cfmt"):
+                if u != case["cfmt"].replace("{commit}", t):
+                    report(rep, "wrong-target:commit:configured-format-not-used",
+                           "a commit link is not the configured hyperlinks-commit-link-format applied to the hash it wraps", what)
+                    return
+                continue
+            m = re.fullmatch(r"https://([^/]*)/(.*)", u, re.S)
+            if not m:
+                report(rep, "wrong-target:commit:remote-derived:shape", "a remote-derived commit link is not an https URL", what)
+                return
+            lhost, lpath = m.group(1), m.group(2)
+            if lhost != case["host"] and not (case["port"] and case["form"] in ("https", "http") and lhost == case["host"] + ":" + case["port"]):
+                report(rep, "wrong-target:commit:remote-derived:host-differs" + (":at-sign-in-path" if cls == "at-sign-in-path" else ""),
+                       f"a commit link goes to host {lhost}, the origin remote is on {case['host']}", dict(want_host=case["host"], **what))
+                return
+            if not u.endswith("/" + t):
+                report(rep, "wrong-target:commit:remote-derived:hash", "a remote-derived commit link does not end with exactly the hash it wraps", what)
+                return
+            infix = FORGES.get(case["host"])
+            good = (lpath == case["path"] + infix + t) if infix else (lpath.startswith(case["path"] + "/") and len(lpath) > len(case["path"]) + 1 + len(t))
+            if not good:
+                report(rep, "wrong-target:commit:remote-derived:path-differs" + (":port" if case["port"] else ""),
+                       "a commit link is not under the repository path the origin remote names (+ the forge's commit path)",
+                       dict(want_path=case["path"] + (infix or "/…/") + t, **what))
+                return
+    # presence: the documented URL forms of the four forges give a link for every hash of the commit line
+    documented = case["cls"] == "forge" and case["form"] in ("https", "scp", "scp-bare") and not case["port"] and case["user"] in ("", "git")
+    if (documented or case.get("cfmt")) and sorted(linked) != sorted(case["hashes"]):
+        report(rep, "missing:commit:" + ("configured" if case.get("cfmt") else "remote-derived"),
+               "a hash of the commit line is not linked although a template is configured / the origin is a documented forge URL",
+               dict(linked=linked, **rcase))
+
+
+def remote_mutants(ctx, origins):
+    """1-2 character edits of origin URLs (near-valid and ambiguous strings for the regexes)."""
+    rng = ctx.rng
+    out = []
+    alphabet = "@:/.~-_gt"
+    for _ in range(ctx.n(150, 3000)):
+        u = list(rng.choice(origins))
+        for _ in range(rng.choice([1, 1, 2])):
+            k = rng.random()
+            i = rng.randrange(len(u) + 1)
+            if k < 0.3 and u:
+                del u[min(i, len(u) - 1)]
+            elif k < 0.7:
+                u.insert(i, rng.choice(alphabet))
+            elif k < 0.8:
+                u += list(rng.choice([".git", "/", ".git/", "/.git", "@", ":"]))
+            elif k < 0.9 and u:
+                j = min(i, len(u) - 1)
+                u[j] = rng.choice(alphabet)
+            else:
+                u = list(rng.choice(["git@", "https://", "ssh://git@", "a@b@", "https://u:p@", ""])) + u
+        u = "".join(u).strip()
+        if u and not re.search(r"[\s\"\\#;]", u) and u not in out:
+            out.append(u)
+    return out
+
+
+def remote_model():
+    """The Lean model of from_str / format_commit_url as a line process (no lean_exe: lakefile.toml is not ours)."""
+    ok, log = lake_build(["DeltaModel.Remote"])
+    if not ok or not os.path.exists(os.path.join(LEAN, "Driver", "Remote.lean")):
+        return None
+    return LineProc(["lake", "env", "lean", "--run", "Driver/Remote.lean"], cwd=LEAN)
+
+
+def remote_corr(ctx, rep, origins, workers):
+    """`remote.commit_url`: model vs binary on origin URLs."""
+    mdl = remote_model()
+    if mdl is None:
+        rep.corr_case("remote.commit_url", False, dict(note="the Lean model DeltaModel.Remote does not build"))
+        return
+    h = "94907c0f136f46dc46ffae2dc92dca9af7eb7c2e"
+    data = ("commit %s\nAuthor: A\n\n    msg\n" % h).encode()
+
+    def observe(u):
+        case = dict(origin=u, links_source="cli", subdir=False)
+        rc, out, err = ctx.run_delta(["--commit-style", "yellow", "--hyperlinks"], data, env={"XDG_CONFIG_HOME": os.path.join(BUILD, "home", ".config")},
+                                     cwd=scratch_repo(case, True))
+        if rc != 0:
+            return "rc=%s" % rc
+        urls = [url.decode("utf-8", "replace") for ln in out.split(b"\n") for url, _ in scan_links(ln)[1]]
+        return urls[0] if urls else None
+    seen = parallel_map(observe, origins, workers=workers)
+    answers = mdl.ask([f"remote.commit_url {hx(u)} {hx(h)}" for u in origins])
+    for u, got, a in zip(origins, seen, answers):
+        f = a.split()
+        want = None if a == "ok none" else unhx(f[3]).decode() if len(f) == 4 and f[0] == "ok" else a
+        rep.count("remote-corr:" + ("recognised" if want else "none"))
+        rep.case(key=("remote-corr", u), nontrivial=want is not None, sample=dict(op="remote.commit_url", origin=u, impl=got, model=a))
+        rep.corr_case("remote.commit_url", got == want, dict(kind="remote-corr", origin=u, impl=got, model=want))
+
+
 def run(ctx, rep):
     rep.rule = ("hook level: link formats from a template grammar (literals incl. stray braces, {path} {line} {host}), "
                 "odd paths, texts with SGR; commit lines with 0-16 hash-like words; non-trivial = the format has a "
                 "placeholder / the line has a match / links on and off differ. binary level: generated git diffs and "
-                "rg --json streams x modes x link formats x GIT_PREFIX; non-trivial = at least one OSC 8 link in the output")
+                "rg --json streams x modes x link formats x GIT_PREFIX; non-trivial = at least one OSC 8 link in the output. "
+                "remote level: scratch repositories whose origin is built from form x user x host (forge / look-alike / unknown) x "
+                "port x path x .git, hyperlinks and commit-link format from the command line or the repository's [delta] section; "
+                "model vs binary on those origins and on 1-2 character mutations; non-trivial = a commit link in the output")
     mdl = ctx.model("drv_ansi") if ctx.drivers_ok else None
     corr_hook(ctx, rep, mdl)
     import threading
@@ -740,8 +1092,13 @@ def run(ctx, rep):
                     return f(*a, **k)
             return g
     shim = Shim()
-    parallel_map(lambda c: binary_case(ctx, shim, c), binary_cases(ctx))
+    workers = int(os.environ.get("VERIF_WORKERS", "0") or 0) or None
+    parallel_map(lambda c: binary_case(ctx, shim, c), binary_cases(ctx), workers=workers)
     pty_cases(ctx, rep)
+    rcases = remote_cases(ctx)
+    parallel_map(lambda c: remote_case(ctx, shim, c), rcases, workers=workers)
+    origins = sorted({c["origin"] for c in rcases})
+    remote_corr(ctx, rep, origins + remote_mutants(ctx, origins), workers)
 
 
 def replay(ctx, rep, obj):
@@ -749,5 +1106,9 @@ def replay(ctx, rep, obj):
     if case.get("kind") == "binary":
         c = {k: case[k] for k in ("lines", "files", "fmt", "cfmt", "mode", "prefix", "invertible", "xform", "caller", "plain") if k in case}
         binary_case(ctx, rep, c)
+    elif case.get("kind") == "remote":
+        remote_case(ctx, rep, {k: v for k, v in case.items() if k not in ("kind", "row", "url", "text", "want_host", "want_path", "linked", "stderr", "without", "with_")})
+    elif case.get("kind") == "remote-corr":
+        remote_corr(ctx, rep, [case["origin"]], 1)
     else:
         run(ctx, rep)
